@@ -1057,6 +1057,37 @@ def probe_fork_close():
                 pass
 
 
+def probe_is_cached():
+    """is_cached_mode: Lab.is_cached asks the task type's cache class (one that also finds results elsewhere is believed), and asks
+    again every time (an entry removed through another Lab object is gone for this one too)."""
+    import shutil
+    import tempfile
+    from labtech.lab import Lab
+    from lv_probe_types import Elsewhere, PElse
+    Elsewhere.found.clear()
+    d = tempfile.mkdtemp(prefix='lvprobe_iscached')
+    try:
+        with _quiet():
+            lab = Lab(storage=d, runner_backend='serial', notebook=False)
+            t = PElse(x=1)
+            if lab.is_cached(t):
+                return None
+            Elsewhere.found.add(t.cache_key)
+            asks_cache = bool(lab.is_cached(t))
+            Elsewhere.found.clear()
+            u = PElse(x=2)
+            lab.run_tasks([u], disable_progress=True, disable_top=True)
+            if not lab.is_cached(u):
+                return None
+            Lab(storage=d, runner_backend='serial', notebook=False).uncache_tasks([u])
+            stale = bool(lab.is_cached(u))
+        if stale:
+            return 'IsCachedMemoises'
+        return 'IsCachedAsksCache' if asks_cache else 'IsCachedAsksStorage'
+    finally:
+        shutil.rmtree(d, ignore_errors=True)
+
+
 def probe_view():
     """view_mode: under the fork backend, does a worker forked after the in-memory results have been empty once still see the
     results of its dependencies?  (One worker; an independent task finishes first and its result is released at once.)"""
@@ -1118,6 +1149,7 @@ def all_probes():
     out['view'] = _limited(probe_view)
     out['mark'] = _limited(probe_mark)
     out['failtest'] = _limited(probe_failtest)
+    out['iscached'] = _limited(probe_is_cached)
     out['lq'] = _limited(probe_log_queue)
     out['binding'] = _limited(probe_ctx_binding)
     out['close'] = _limited(probe_fork_close)
